@@ -9,6 +9,8 @@ import (
 	"time"
 
 	apiv1 "k8s.io/api/core/v1"
+	apierrors "k8s.io/apimachinery/pkg/api/errors"
+	"k8s.io/apimachinery/pkg/runtime/schema"
 	"k8s.io/apimachinery/pkg/api/resource"
 	metav1 "k8s.io/apimachinery/pkg/apis/meta/v1"
 	"k8s.io/client-go/kubernetes"
@@ -41,6 +43,10 @@ type c15Store struct {
 	nilGet   bool
 	puts     []*apiv1.Node
 	gets     int
+	// conflict: another writer updates the node between our read and our first write (it adds
+	// a taint and an annotation); that write is rejected with 409 Conflict, later ones are applied
+	conflict bool
+	applied  int
 }
 
 type c15Nodes struct {
@@ -70,6 +76,19 @@ func (n *c15Nodes) Update(ctx context.Context, node *apiv1.Node, opts metav1.Upd
 	if n.s.failPut {
 		return nil, errors.New("injected update failure")
 	}
+	if n.s.conflict && len(n.s.puts) == 1 {
+		cur := c15Copy(n.s.latest)
+		cur.Spec.Taints = append(cur.Spec.Taints, apiv1.Taint{Key: "node.kubernetes.io/unreachable", Effect: apiv1.TaintEffectNoExecute})
+		ann := map[string]string{"heartbeat": "2"}
+		for k, v := range cur.Annotations {
+			ann[k] = v
+		}
+		cur.Annotations = ann
+		n.s.latest = cur
+		return nil, apierrors.NewConflict(schema.GroupResource{Resource: "nodes"}, node.Name, errors.New("the object has been modified"))
+	}
+	n.s.latest = c15Copy(node)
+	n.s.applied++
 	return c15Copy(node), nil
 }
 
@@ -254,8 +273,34 @@ func VerifHarness_C15_delete() {
 	case 3:
 		store.nilGet = true
 	}
+	if escAt >= 0 && verifChoice("conflict", 2) == 1 && !store.failGet && !store.failPut && !store.nilGet {
+		store.conflict = true
+	}
 	stale := c15Node(foreign, 0, "1400000000")
 	_, err := DeleteToBeRemovedTaint(stale, &c15Kube{s: store})
+	if store.conflict {
+		// whatever escalator does about the conflict (give up or retry), what the API server
+		// holds afterwards still has every taint, label and annotation other writers put there
+		final := store.latest
+		var foreignNow []apiv1.Taint
+		for _, t := range final.Spec.Taints {
+			if t.Key != ToBeRemovedByAutoscalerKey {
+				foreignNow = append(foreignNow, t)
+			}
+		}
+		var want []apiv1.Taint
+		for k, t := range server.Spec.Taints {
+			if k != escAt {
+				want = append(want, t)
+			}
+		}
+		want = append(want, apiv1.Taint{Key: "node.kubernetes.io/unreachable", Effect: apiv1.TaintEffectNoExecute})
+		verifAssert("C15.conflict-keeps-concurrent-taints", sameTaintMultiset(foreignNow, want))
+		verifAssert("C15.conflict-keeps-concurrent-annotation", final.Annotations["heartbeat"] == "2")
+		verifAssert("C15.conflict-reported-or-resolved", err != nil || store.applied > 0)
+		verifReach("C15.conflict")
+		return
+	}
 	if store.failGet || store.nilGet {
 		verifAssert("C15.get-failure-reported", err != nil && len(store.puts) == 0)
 		return
